@@ -76,3 +76,156 @@ Example C13_graded_F5_regression :
   keys (gp Zops (mk_default [1; 0; 0] 1 false) [(3, 1); (5, 2); (6, 3)] [(3, 1); (5, 2); (6, 3)]) = [6].
 Proof. exact graded_F5_regression. Qed.
 
+
+(* ================= the generated TEXT (clause generated-code; Model/Slp.v, Theory/Slp.v) =================
+   Whatever options (cse, graded, codegen_symbolcls) made kingdon print a function, the text that runs is parsed
+   (tools/genvalidate.py, python ast -> [prog], fail closed) and run by Coq on INDETERMINATES - kingdon's own
+   polynomial class, canonical forms, exact == (C17) - against the model operator on indeterminate multivectors
+   with the same keys: `validate2 (model2 o A) kx ky kout p = true` is ONE vm_compute per generated function.
+   The theorems below turn that one `true` into a statement about every input in every commutative ring; neither
+   sympy.cse nor the printer is trusted for a validated function. *)
+From Coq Require Import Ring_theory String.
+From KV Require Import Model.Poly Model.Slp Theory.Poly Theory.Call Theory.Slp.
+
+(* running a generated program commutes with every operation-preserving map of the coefficients, exceptions
+   included (NameError, ValueError of an unpacking, TypeError of the arity) *)
+Theorem C13_slp_hom : forall (R S : Type) (OR : ops R) (OS : ops S) (h : R -> S) (injR : Z -> R) (injS : Z -> S),
+  ops_hom OR OS h -> (forall z, h (injR z) = injS z) ->
+  forall (p : prog) (args : list (list R)),
+  slp_eval OS injS p (map (map h) args) = map_res (map h) (slp_eval OR injR p args).
+Proof. exact (fun R S => @slp_eval_hom R S). Qed.
+Print Assumptions C13_slp_hom.
+
+(* common-subexpression elimination on its own: substituting the assignments away gives a program without
+   assignments that computes the same (values AND exceptions), as soon as every assignment refers only to
+   unpacked names and earlier assignments (false without that: ex_cse_needs_scoping) *)
+Theorem C13_cse_sound : forall (R : Type) (O : ops R) (inj : Z -> R) (p : prog) (args : list (list R)),
+  well_scoped p = true -> slp_eval O inj (inline p) args = slp_eval O inj p args.
+Proof. exact (fun R => @cse_sound R). Qed.
+Print Assumptions C13_cse_sound.
+
+(* MAIN: a generated binary function that validates against the model operator o of the algebra A on the key
+   tuples kx, ky computes, for EVERY commutative ring and ALL coefficient lists of the right lengths, exactly the
+   values of the model operator, stored under the keys kout (zinj = the image n |-> 1 + .. + 1 of the python
+   integer literals).  o ranges over gp op ip lc rc sp cp acp rp add sub sw proj; graded algebras included. *)
+Theorem C13_generated_code_all_inputs : forall (R : Type) (R0 R1 : R) (Radd Rmul Rsub : R -> R -> R) (Ropp : R -> R),
+  ring_theory R0 R1 Radd Rmul Rsub Ropp (@eq R) ->
+  forall (o : gop2) (A : alg) (kx ky kout : list Z) (p : prog),
+  validate2 (model2 o A) kx ky kout p = true ->
+  forall xs ys : list R, length xs = length kx -> length ys = length ky ->
+  slp_eval (mkOps R Radd Rsub Rmul Ropp R0 R1) (zinj R R0 R1 Radd Rmul Ropp) p [xs; ys]
+  = Ok (map snd (model2 o A R (mkOps R Radd Rsub Rmul Ropp R0 R1) (combine kx xs) (combine ky ys))) /\
+  keys (model2 o A R (mkOps R Radd Rsub Rmul Ropp R0 R1) (combine kx xs) (combine ky ys)) = kout.
+Proof.
+  exact (fun R R0 R1 Radd Rmul Rsub Ropp Rth o A => slp_validated2 R R0 R1 Radd Rmul Rsub Ropp Rth (model2 o A) (model2_natural o A)).
+Qed.
+Print Assumptions C13_generated_code_all_inputs.
+
+(* unary: neg reverse involute conjugate hodge unhodge normsq *)
+Theorem C13_generated_code_all_inputs_unary : forall (R : Type) (R0 R1 : R) (Radd Rmul Rsub : R -> R -> R) (Ropp : R -> R),
+  ring_theory R0 R1 Radd Rmul Rsub Ropp (@eq R) ->
+  forall (o : gop1) (A : alg) (kx kout : list Z) (p : prog),
+  validate1 (model1 o A) kx kout p = true ->
+  forall xs : list R, length xs = length kx ->
+  slp_eval (mkOps R Radd Rsub Rmul Ropp R0 R1) (zinj R R0 R1 Radd Rmul Ropp) p [xs]
+  = Ok (map snd (model1 o A R (mkOps R Radd Rsub Rmul Ropp R0 R1) (combine kx xs))) /\
+  keys (model1 o A R (mkOps R Radd Rsub Rmul Ropp R0 R1) (combine kx xs)) = kout.
+Proof.
+  exact (fun R R0 R1 Radd Rmul Rsub Ropp Rth o A => slp_validated1 R R0 R1 Radd Rmul Rsub Ropp Rth (model1 o A) (model1_natural o A)).
+Qed.
+Print Assumptions C13_generated_code_all_inputs_unary.
+
+(* the coefficient level, used for the composites sw proj normsq (whose generators drop identically-zero blades
+   on the way, so the stored keys may be fewer than the model's): the same coefficient on EVERY blade, absent = 0 *)
+Theorem C13_generated_code_all_inputs_coefficients : forall (R : Type) (R0 R1 : R) (Radd Rmul Rsub : R -> R -> R) (Ropp : R -> R),
+  ring_theory R0 R1 Radd Rmul Rsub Ropp (@eq R) ->
+  forall (A : alg) (kx ky kout : list Z) (p : prog),
+  (forall o, validate2c (model2 o A) kx ky kout p = true ->
+     forall xs ys : list R, length xs = length kx -> length ys = length ky ->
+     exists vs, slp_eval (mkOps R Radd Rsub Rmul Ropp R0 R1) (zinj R R0 R1 Radd Rmul Ropp) p [xs; ys] = Ok vs /\
+       length vs = length kout /\
+       forall K, coeff (mkOps R Radd Rsub Rmul Ropp R0 R1) K (combine kout vs)
+                 = coeff (mkOps R Radd Rsub Rmul Ropp R0 R1) K
+                     (model2 o A R (mkOps R Radd Rsub Rmul Ropp R0 R1) (combine kx xs) (combine ky ys))) /\
+  (forall o, validate1c (model1 o A) kx kout p = true ->
+     forall xs : list R, length xs = length kx ->
+     exists vs, slp_eval (mkOps R Radd Rsub Rmul Ropp R0 R1) (zinj R R0 R1 Radd Rmul Ropp) p [xs] = Ok vs /\
+       length vs = length kout /\
+       forall K, coeff (mkOps R Radd Rsub Rmul Ropp R0 R1) K (combine kout vs)
+                 = coeff (mkOps R Radd Rsub Rmul Ropp R0 R1) K
+                     (model1 o A R (mkOps R Radd Rsub Rmul Ropp R0 R1) (combine kx xs))).
+Proof.
+  exact (fun R R0 R1 Radd Rmul Rsub Ropp Rth A kx ky kout p =>
+    conj (fun o => slp_validated2c R R0 R1 Radd Rmul Rsub Ropp Rth (model2 o A) (model2_natural o A) kx ky kout p)
+         (fun o => slp_validated1c R R0 R1 Radd Rmul Rsub Ropp Rth (model1 o A) (model1_natural o A) kx kout p)).
+Qed.
+Print Assumptions C13_generated_code_all_inputs_coefficients.
+
+(* ... for ANY operator family that commutes with operation-preserving maps, not only the tagged ones *)
+Theorem C13_generated_code_all_inputs_natural : forall (R : Type) (R0 R1 : R) (Radd Rmul Rsub : R -> R -> R) (Ropp : R -> R),
+  ring_theory R0 R1 Radd Rmul Rsub Ropp (@eq R) ->
+  forall F : (forall T, ops T -> mv T -> mv T -> mv T), natural_bin F ->
+  forall (kx ky kout : list Z) (p : prog), validate2 F kx ky kout p = true ->
+  forall xs ys : list R, length xs = length kx -> length ys = length ky ->
+  slp_eval (mkOps R Radd Rsub Rmul Ropp R0 R1) (zinj R R0 R1 Radd Rmul Ropp) p [xs; ys]
+  = Ok (map snd (F R (mkOps R Radd Rsub Rmul Ropp R0 R1) (combine kx xs) (combine ky ys))) /\
+  keys (F R (mkOps R Radd Rsub Rmul Ropp R0 R1) (combine kx xs) (combine ky ys)) = kout.
+Proof. exact slp_validated2. Qed.
+Print Assumptions C13_generated_code_all_inputs_natural.
+
+(* the error branch: operands of any other length make the unpacking raise ValueError (nothing is computed) *)
+Theorem C13_generated_code_wrong_length : forall (R : Type) (R0 R1 : R) (Radd Rmul Rsub : R -> R -> R) (Ropp : R -> R),
+  forall (o : gop2) (A : alg) (kx ky kout : list Z) (p : prog),
+  validate2 (model2 o A) kx ky kout p = true ->
+  forall xs ys : list R, length xs <> length kx \/ length ys <> length ky ->
+  slp_eval (mkOps R Radd Rsub Rmul Ropp R0 R1) (zinj R R0 R1 Radd Rmul Ropp) p [xs; ys] = Err EValue.
+Proof.
+  exact (fun R R0 R1 Radd Rmul Rsub Ropp o A kx ky kout p =>
+           slp_validated2_wrong_length R R0 R1 Radd Rmul Rsub Ropp (model2 o A) kx ky kout p agree_exact).
+Qed.
+Print Assumptions C13_generated_code_wrong_length.
+
+(* the tagged model operators are the operators every other property speaks about (Model/Codegen.v, Model/Composite.v;
+   run2 / run1 of C12) outside graded mode, and the graded operators of C13_graded_complete in graded mode *)
+Theorem C13_generated_code_model_operators : forall A R (O : ops R) (x y : mv R),
+  (a_graded A = false -> (forall o, model2 o A R O x y = run2 (tag2 o) A R O x y) /\
+                         (forall o, model1 o A R O x = run1 (tag1 o) A R O x)) /\
+  model2 G2gp A R O x y = ggp O A x y /\ model2 G2op A R O x y = gop O A x y /\
+  model2 G2ip A R O x y = gip O A x y /\ model2 G2add A R O x y = gadd O A x y.
+Proof.
+  exact (fun A R O x y => conj (fun Hg => conj (fun o => model2_run2 o A R O x y Hg) (fun o => model1_run1 o A R O x Hg))
+                               (model2_graded A R O x y)).
+Qed.
+Print Assumptions C13_generated_code_model_operators.
+
+(* no false alarm from the comparison itself: a failed validation is an exception on indeterminates, another key
+   list / arity, or a blade whose two polynomials differ in a formal coefficient *)
+Theorem C13_validation_complete : forall (o : gop2) (A : alg) (kx ky kout : list Z) (p : prog),
+  let X := indets 0 (length kx) in let Y := indets (length kx) (length ky) in
+  let M := model2 o A poly PolyOps (combine kx X) (combine ky Y) in
+  validate2 (model2 o A) kx ky kout p = false ->
+  (exists e, slp_eval PolyOps P_of_Z p [X; Y] = Err e) \/ kout <> keys M \/
+  exists out, slp_eval PolyOps P_of_Z p [X; Y] = Ok out /\
+    (length out <> length M \/
+     exists i q m mu, nth_error out i = Some q /\ nth_error (map snd M) i = Some m /\ coef mu q <> coef mu m).
+Proof. exact (fun o A => validate2_complete (model2 o A) (model2_natural o A)). Qed.
+Print Assumptions C13_validation_complete.
+
+(* non-vacuity: the text Algebra(2) generates today for gp of two vectors validates (with and without cse), so does
+   the sandwich with three cse assignments; a flipped sign, a dropped assignment, a reused symbol, other keys,
+   another operator, another signature do not *)
+Example C13_generated_code_validates :
+  validate2 (model2 G2gp ex_A2) [1; 2] [1; 2] [0; 3] ex_gp = true /\
+  validate2 (model2 G2gp ex_A2) [1; 2] [1; 2] [0; 3] ex_gp_cse = true /\
+  validate2c (model2 G2sw ex_A2) [0; 3] [1; 2] [1; 2] ex_sw = true /\
+  validate2 (model2 G2sw ex_A2) [0; 3] [1; 2] [1; 2] ex_sw = true.
+Proof. exact ex_validates. Qed.
+Example C13_generated_code_rejected :
+  validate2 (model2 G2gp ex_A2) [1; 2] [1; 2] [0; 3] ex_gp_sign = false /\
+  validate2 (model2 G2gp ex_A2) [1; 2] [1; 2] [0; 3] ex_gp_dropped = false /\
+  validate2 (model2 G2gp ex_A2) [1; 2] [1; 2] [0; 3] ex_gp_reused = false /\
+  validate2 (model2 G2gp ex_A2) [1; 2] [1; 2] [3; 0] ex_gp = false /\
+  validate2 (model2 G2op ex_A2) [1; 2] [1; 2] [0; 3] ex_gp = false /\
+  validate2 (model2 G2gp (mk_default [1; -1] 1 false)) [1; 2] [1; 2] [0; 3] ex_gp = false /\
+  validate2c (model2 G2gp ex_A2) [1; 2] [1; 2] [0; 3] ex_gp_sign = false.
+Proof. exact ex_rejected. Qed.
